@@ -524,6 +524,17 @@ func (e *Engine) subRef(owner string, f *types.Var, ref *Term) *Term {
 	return App(name, ref)
 }
 
+// subRefIn is subRef plus the fact that an embedded struct of an object allocated at function entry was
+// itself allocated at entry (so it is distinct from every object allocated later).
+func (e *Engine) subRefIn(st *State, owner string, f *types.Var, ref *Term) *Term {
+	sub := e.subRef(owner, f, ref)
+	if st != nil {
+		al0 := Var("H0$$alloc", ArrSort(IntSort, BoolSort))
+		st.Assume(Implies(Select(al0, ref), And(Select(al0, sub), Gt(sub, IntLit(0)))))
+	}
+	return sub
+}
+
 // ---------------------------------------------------------------------------
 // Locations
 
@@ -566,7 +577,7 @@ func (e *Engine) load(st *State, l *Loc) *Term {
 		return e.Heap(st, l.Key, e.sortOf(l.T))
 	case LHeap:
 		if isStructVal(l.Field.Type()) && !isSyncType(l.Field.Type()) {
-			return e.loadObj(st, e.subRef(l.Owner, l.Field, l.Ref), l.Field.Type())
+			return e.loadObj(st, e.subRefIn(st, l.Owner, l.Field, l.Ref), l.Field.Type())
 		}
 		return Select(e.Heap(st, e.fieldKey(l.Owner, l.Field), e.fieldHeapSort(l.Field)), l.Ref)
 	case LObj:
@@ -628,7 +639,7 @@ func (e *Engine) store(st *State, l *Loc, v *Term) {
 		st.heap[l.Key] = v
 	case LHeap:
 		if isStructVal(l.Field.Type()) && !isSyncType(l.Field.Type()) {
-			e.storeObj(st, e.subRef(l.Owner, l.Field, l.Ref), l.Field.Type(), v)
+			e.storeObj(st, e.subRefIn(st, l.Owner, l.Field, l.Ref), l.Field.Type(), v)
 			return
 		}
 		key := e.fieldKey(l.Owner, l.Field)
